@@ -2,7 +2,7 @@
 (* Validation of the trusted Java primitives against vectors stated in the  *)
 (* standards, and of Bytes.tla bignum arithmetic on spot values.  Run by    *)
 (* setup_cmd; a failing ASSUME aborts TLC.                                   *)
-EXTENDS Bytes, Prim, HdwIO, Bip32, TLC
+EXTENDS Bytes, Prim, HdwIO, Bip32, Ecdsa, TLC
 
 H(s) == HexToBytes(s)
 A(s) == StrToUtf8(s)
@@ -73,6 +73,10 @@ ASSUME HexLower(<<0, 171>>) = <<48, 48, 97, 98>>
 ASSUME NatDecCodes(1024) = <<49, 48, 50, 52>>
 \* the native search accelerator equals its TLA+ definition
 M0 == Master(Rep(32, 7))
+\* the native bulk oracle equals its TLA+ definition (12 signatures, some of which need the low-s flip)
+ASSUME \A q \in 1..2 : LET d == Sha256(<<q>>) IN BulkSignHash(d, <<7, q>>, 1000 * q, 6) = BulkSignHashSpec(d, <<7, q>>, 1000 * q, 6)
+ASSUME \E i \in 1..6 : Sign(Sha256(<<1>>), BulkDigest(<<7, 1>>, 1000 + i - 1)).flipped
+ASSUME \E i \in 1..6 : ~Sign(Sha256(<<1>>), BulkDigest(<<7, 1>>, 1000 + i - 1)).flipped
 ASSUME \A w \in 0..3 : RareHardenedChild(M0.k, M0.c, 1, 700 * w, 700 * w + 699) = RareHardenedChildSpec(M0.k, M0.c, 1, 700 * w, 700 * w + 699)
 ASSUME RareHardenedChild(M0.k, M0.c, 1, 0, 5000) >= 0 /\ RareHardenedChild(M0.k, M0.c, 31, 0, 1000) = 0 - 1
 ASSUME LET i == RareHardenedChild(M0.k, M0.c, 2, 0, 400000) IN i >= 0 /\ SubSeq(CKD(M0, Comp(TRUE, BnFromNat(i))).k, 1, 2) = <<0, 0>>
